@@ -303,7 +303,7 @@ pub fn gen_named_field(u: &mut Un, pools: &mut Pools) -> Option<FieldIR> {
         metavar: mv.to_owned(),
         adjacent: false,
     };
-    let template = u.below(20);
+    let template = u.below(23);
     let (rust_ty, twin, node): (String, String, Node) = match template {
         0 | 1 => {
             implicit += 1;
@@ -533,6 +533,65 @@ pub fn gen_named_field(u: &mut Un, pools: &mut Pools) -> Option<FieldIR> {
                 t.into(),
                 format!("{}.argument::<{}>(\"ARG\").last()", nt, t),
                 Node::Last(Node::Named(s).b()),
+            )
+        }
+        20 | 21 => {
+            // implicit consumer, implicit many/optional, then a decoration whose meaning depends
+            // on its position relative to them
+            implicit += 2;
+            attr.push("custom_usage(\"CUSTOM\")".into());
+            explicit = true;
+            let s = named_spec(pools, &naming, &help, arg_kind("ARG"));
+            if template == 20 {
+                (
+                    format!("Vec<{}>", t),
+                    format!("{}.argument::<{}>(\"ARG\").many().custom_usage(\"CUSTOM\")", nt, t),
+                    Node::CustomUsage(
+                        Node::Many {
+                            n: Node::Named(s).b(),
+                            catch: false,
+                        }
+                        .b(),
+                        DocSpec::plain("CUSTOM"),
+                    ),
+                )
+            } else {
+                (
+                    format!("Option<{}>", t),
+                    format!("{}.argument::<{}>(\"ARG\").optional().custom_usage(\"CUSTOM\")", nt, t),
+                    Node::CustomUsage(
+                        Node::Optional {
+                            n: Node::Named(s).b(),
+                            catch: false,
+                        }
+                        .b(),
+                        DocSpec::plain("CUSTOM"),
+                    ),
+                )
+            }
+        }
+        22 => {
+            // guard on the whole vector
+            implicit += 2;
+            attr.push("guard(at_most_two, \"at most two\")".into());
+            explicit = true;
+            let s = named_spec(
+                pools,
+                &naming,
+                &help,
+                NamedKind::Arg {
+                    ty: Ty::U32,
+                    metavar: "ARG".into(),
+                    adjacent: false,
+                },
+            );
+            (
+                "Vec<u32>".into(),
+                format!("{}.argument::<u32>(\"ARG\").many().guard(at_most_two, \"at most two\")", nt),
+                Node::Many {
+                    n: Node::Named(s).b(),
+                    catch: false,
+                },
             )
         }
         _ => {
@@ -1182,6 +1241,7 @@ use std::path::PathBuf;
 fn double(x: u32) -> u32 { x.wrapping_mul(2) }
 fn parse_num(s: String) -> Result<u32, std::num::ParseIntError> { s.parse::<u32>() }
 fn small(x: &u32) -> bool { *x < 5000 }
+fn at_most_two(xs: &Vec<u32>) -> bool { xs.len() <= 2 }
 
 fn show<T: std::fmt::Debug>(r: &Result<T, ParseFailure>) -> String {
     match r {
